@@ -24,6 +24,14 @@ T = ("T",)
 F = ("F",)
 
 
+def f_is(place, ctor):
+    if ctor == "true":
+        return ("atom", place)
+    if ctor == "false":
+        return ("not", ("atom", place))
+    return ("is", place, ctor)
+
+
 def f_not(f):
     if f == T:
         return F
@@ -122,21 +130,26 @@ def place_of(e, env):
         else:
             break
     if A.kind(e) == "Expr::Tuple":
-        return ("tuple", [place_of(x, env) for x in e["elems"]])
+        return ("tuple", [place_of(x, env) for x in e["elems"]], list(e["elems"]), env)
     return subst_text(_render(e), env)
 
 
 def _sub_place(place, key):
     if isinstance(place, tuple) and place[0] == "tuple":
         try:
-            return place[1][int(key)]
+            sub = place[1][int(key)]
+            if isinstance(sub, str) and len(place) > 3:
+                return ("expr", sub, place[2][int(key)], place[3])
+            return sub
         except (ValueError, IndexError):
             return _ptext(place) + "." + str(key)
-    return f"{place}.{key}"
+    return f"{_ptext(place)}.{key}"
 
 
 def _ptext(place):
     if isinstance(place, tuple):
+        if place[0] == "expr":
+            return place[1]
         return "(" + ",".join(_ptext(p) for p in place[1]) + ")"
     return place
 
@@ -163,7 +176,12 @@ def pat_formula(place, pat, binds):
     if k in ("Pat::Reference", "Pat::Paren", "Pat::Type"):
         return pat_formula(place, pat["pat"], binds)
     if k == "Pat::Lit":
-        return ("is", _ptext(place), A.render_pat(pat))
+        r = A.render_pat(pat)
+        if r in ("true", "false") and isinstance(place, tuple) and place[0] == "expr":
+            # `match (a > 1, flag) { (true, _) => ..`: a boolean element matched against a literal is the condition itself
+            f = bool_formula(place[2], place[3], {})
+            return f if r == "true" else f_not(f)
+        return f_is(_ptext(place), r)
     if k == "Pat::Path":
         return ("is", _ptext(place), ctor_name(A.render_pat(pat)))
     if k == "Pat::TupleStruct":
